@@ -93,6 +93,8 @@ def _diff(f):
 
 
 def case_from_desc(d):
+    if d['config'] == 'multi':
+        return {'wire': T.w_case_multi(_multi_states(d), d['s'], d['tolerant'], [tuple(o) for o in d['ops']]), 'desc': d, 'nt': True}
     f = dict(T.DEFAULT_FIELDS)
     f.update(d['fields'])
     for k in list(f):
@@ -119,6 +121,35 @@ def gen_cases(seed, tier):
             tol = rnd.random() < 0.5
             ops = [rnd.choice([0, 1, 1, 1, 2, 3, 4, 5, 6]) for _ in range(rnd.randint(5, 40))]
             cases.append(_case(name, f, s, tol, ops))
+    # several parsing states used alternately on ONE reader, each through a transient state object
+    cf = configs()
+    groups = [['default-noctx', 'nomath', 'math-$', 'nogroups'], ['ctx', 'ctx-nospecials', 'nocomments'],
+              ['default-noctx', 'nomacros', 'noenvs', 'escape-at'], ['dnp', 'nodnp', 'comment-hash']]
+    byname = {n: f for n, f, _ in cf}
+    for _ in range(400 if tier == 'quick' else 6000):
+        g = rnd.choice(groups)
+        states = [(byname[n], []) for n in g]
+        if rnd.random() < 0.5:
+            states.append((byname[g[0]], [{'enable_math': False}]))
+            states.append((byname[g[0]], [{'in_math_mode': True, 'math_mode_delimiter': '$'}]))
+        alpha = ['a', ' ', '$', '{', '}', '%', '\\', '~', '-', '@', '#', '\n', '\\(', '\\begin{e}', '\\m']
+        s = ''.join(rnd.choice(alpha) for _ in range(rnd.randint(2, 12)))
+        ops = []
+        for _ in range(rnd.randint(4, 24)):
+            k = rnd.randrange(len(states))
+            r = rnd.random()
+            if r < 0.45:
+                # peek under one state, then peek / read under another at the same position
+                ops.append((0, k))
+                ops.append((rnd.choice([0, 1]), rnd.randrange(len(states))))
+            else:
+                ops.append((rnd.choice([0, 1, 1, 2, 3, 4, 5, 6]), k))
+        cases.append({'wire': T.w_case_multi(states, s, rnd.random() < 0.5, ops) if False else None,
+                      'desc': {'config': 'multi', 'states': [[_diff(f), ch] for f, ch in states], 's': s,
+                               'tolerant': None, 'ops': [list(o) for o in ops]}, 'nt': None})
+        tol = rnd.random() < 0.5
+        cases[-1]['desc']['tolerant'] = tol
+        cases[-1]['wire'] = T.w_case_multi(states, s, tol, ops)
     for c in cases:
         c['nt'] = sum(1 for ch in c['desc']['s'] if not ch.isspace()) >= 2
     return cases
@@ -131,8 +162,22 @@ def _ps(d):
     return ps
 
 
+def _multi_states(d):
+    out = []
+    for fd, ch in d['states']:
+        f = dict(T.DEFAULT_FIELDS)
+        f.update(fd)
+        for k in list(f):
+            if k.startswith('latex_'):
+                f[k] = [tuple(p) for p in f[k]]
+        out.append((f, ch))
+    return out
+
+
 def impl(c):
     d = c['desc']
+    if d['config'] == 'multi':
+        return T.run_script_multi(_multi_states(d), d['s'], d['tolerant'], [tuple(o) for o in d['ops']])
     return T.run_script(_ps(d), d['s'], d['tolerant'], d['ops'], False)
 
 
@@ -140,6 +185,8 @@ def oracle(c):
     """The four relations of the property on the real reader."""
     from pylatexenc.latexnodes import LatexTokenReader, LatexWalkerEndOfStream, LatexWalkerTokenParseError
     d = c['desc']
+    if d['config'] == 'multi':
+        return _oracle_multi(d)
     s, tol = d['s'], d['tolerant']
     ps = _ps(d)
     tr = LatexTokenReader(s, tolerant_parsing=tol)
@@ -190,6 +237,41 @@ def oracle(c):
         t2 = tr.next_token(ps)
         if T.dump_token(t2) != T.dump_token(t) or tr.cur_pos() != p1:
             return ('rewind-differs', {'first': T.dump_token(t), 'second': T.dump_token(t2)})
+
+
+def _oracle_multi(d):
+    """whatever was peeked or read before with other (transient) states, a peek / read under a state returns what a
+    FRESH reader placed at the same position returns under that state, and a peek does not move"""
+    import gc
+    from pylatexenc.latexnodes import LatexTokenReader
+    s, tol = d['s'], d['tolerant']
+    states = _multi_states(d)
+    tr = LatexTokenReader(s, tolerant_parsing=tol)
+    last = None
+    for op, k in d['ops']:
+        ps, _ = T.make_state(states[k][0], states[k][1], s)
+        p0 = tr.cur_pos()
+        if op in (0, 1):
+            fr = LatexTokenReader(s, tolerant_parsing=tol)
+            fr.move_to_pos_chars(p0)
+            want, _t = T._tokres((lambda: fr.peek_token(ps)) if op == 0 else (lambda: fr.next_token(ps)))
+            got, t = T._tokres((lambda: tr.peek_token(ps)) if op == 0 else (lambda: tr.next_token(ps)))
+            if got != want or tr.cur_pos() != fr.cur_pos():
+                return ('reader-history-changes-token', {'op': op, 'state': k, 'pos': p0, 'used_reader': got,
+                                                         'fresh_reader': want, 'positions': [tr.cur_pos(), fr.cur_pos()]})
+            if t is not None:
+                last = t
+        elif op != 6 and last is not None:
+            if op == 2:
+                tr.move_to_token(last)
+            elif op == 3:
+                tr.move_to_token(last, rewind_pre_space=False)
+            elif op == 4:
+                tr.move_past_token(last)
+            else:
+                tr.move_past_token(last, fastforward_post_space=False)
+        del ps
+    return None
 
 
 def distribution(cases, impl_out):
